@@ -443,7 +443,7 @@ theorem execArrayIndex_mono (c : Ctx) {item : ItemK} (hI : MonoI item) (s : St) 
   unfold execArrayIndex
   try dsimp only
   split
-  · simpa [returnVerboseError_st] using h
+  · simpa [structural_st] using h
   · rename_i xs _
     have hinv : (subs.foldl (indexSubStep c item nx xs v)
         ⟨{ s with innermost := xs.length }, f, .notFound, none, none⟩).flagO = true := by
@@ -933,7 +933,7 @@ theorem execArrayIndex_mono (c : Ctx) {item : ItemK} (hI : MonoI item) (s : St) 
   unfold execArrayIndex
   try dsimp only
   split
-  · simpa [returnVerboseError_st] using h
+  · simpa [structural_st] using h
   · rename_i xs _
     have hinv : (subs.foldl (indexSubStep c item nx xs v)
         ⟨{ s with innermost := xs.length }, f, .notFound, none, none⟩).flagP = true := by
@@ -1369,7 +1369,7 @@ theorem execMethodSize_pc (c : Ctx) {item : ItemK} (hI : HypI d8 item) (s : St) 
   split
   · exact executeNextItem_pc c hI _ _ _ _ hnx
   · split
-    · exact returnVerboseError_pc s l
+    · exact structural_pc s l
     · exact executeNextItem_pc c hI _ _ _ _ hnx
 
 theorem execConvMethod_pc (c : Ctx) {item : ItemK} {any : AnyK} (hI : HypI d8 item) (hA : HypA d8 any) (s : St)
@@ -2276,7 +2276,7 @@ theorem execArrayIndex_pc (c : Ctx) {item : ItemK} (hI : HypI d8 item) (s : St) 
     PC d8 l (execArrayIndex c item s subs nx v none) (execArrayIndex c item s subs nx v (some l)) := by
   unfold execArrayIndex
   split
-  · exact returnVerboseError_pc s l
+  · exact structural_pc s l
   · rename_i xs _
     have hrel := foldl_rel (IRel d8 l) (indexSubStep c item nx xs v) subs
       ⟨{ s with innermost := xs.length }, none, .notFound, none, none⟩
@@ -2681,7 +2681,7 @@ theorem execMethodSize_fe (c : Ctx) {item : ItemK} (hI : FEI item) (s : St) (nx 
   split
   · exact executeNextItem_fe c hI _ _ _ _
   · split
-    · exact returnVerboseError_fe _ _
+    · exact structural_fe _ _
     · exact executeNextItem_fe c hI _ _ _ _
 
 theorem execConvMethod_fe (c : Ctx) {item : ItemK} {any : AnyK} (hI : FEI item) (hA : FEA any) (s : St)
@@ -2887,7 +2887,7 @@ theorem execArrayIndex_fe (c : Ctx) {item : ItemK} (hI : FEI item) (s : St) (sub
     (nx : Option Node) (v : Item) (f : Found) : FE (execArrayIndex c item s subs nx v f) := by
   unfold execArrayIndex
   split
-  · exact returnVerboseError_fe _ _
+  · exact structural_fe _ _
   · rename_i xs _
     dsimp only
     have hinv : IFE (subs.foldl (indexSubStep c item nx xs v)
